@@ -176,6 +176,12 @@ func VerifySignature(
 			return errorsmod.Wrap(errortypes.ErrNoSignatures, "tx doesn't contain any msgs to verify signature")
 		}
 
+		// the sign bytes below carry the fee amount and the gas limit only: a fee granter would not be covered by the
+		// signature, so anybody could add or change it afterwards and have the fee taken from another account
+		if feeTx, ok := tx.(sdk.FeeTx); ok && len(feeTx.FeeGranter()) != 0 {
+			return errorsmod.Wrap(errortypes.ErrInvalidRequest, "EIP712 transactions cannot name a fee granter: it is not part of the signed data")
+		}
+
 		txBytes := legacytx.StdSignBytes(
 			signerData.ChainID,
 			signerData.AccountNumber,
